@@ -243,7 +243,28 @@ func (x *runner) probe() {
 			if held == nil {
 				held = []int32{}
 			}
-			return rec.Ev{"op": "probe", "n": id, "synced": x.gossip == "auto" && !x.lenient, "sessions": ss, "subs": us, "retained": rs, "local": local, "held": held}
+			// what this node resolves each listed client identifier to (C12)
+			type res struct {
+				Client string `json:"client"`
+				Mount  string `json:"mount"`
+				S      string `json:"s"`
+			}
+			rv := []res{}
+			seen := map[[2]string]bool{}
+			for _, s := range ss {
+				k := [2]string{s.Client, s.Mount}
+				if seen[k] {
+					continue
+				}
+				seen[k] = true
+				r := res{Client: s.Client, Mount: s.Mount}
+				if md, err := n.State.SessionMetadatas().ByClientID(s.Client, s.Mount); err == nil {
+					r.S = md.SessionID
+				}
+				rv = append(rv, r)
+			}
+			return rec.Ev{"op": "probe", "n": id, "synced": x.gossip == "auto" && !x.lenient, "sessions": ss, "subs": us, "retained": rs, "local": local, "held": held,
+				"resolve": rv}
 		})
 	}
 }
@@ -370,6 +391,29 @@ func (x *runner) own(o op) {
 	if !ok {
 		x.r.Emit(rec.Ev{"op": "race.note", "what": "no answer within 5 s", "to": o.Op, "c": o.C})
 	}
+	if o.Op == "pub" {
+		// a publish is complete when its deliveries have been written: the writer resolves the recipients of a stored
+		// message when it gets to it, which may be after the acknowledgement to the publisher
+		x.w.WaitFor(x.backgroundIdle, 3*time.Second)
+	}
+}
+
+// backgroundIdle: publish workers, log consumers and writers have nothing left to do (connection loops are not looked at:
+// one of them may be parked at a gate).
+func (x *runner) backgroundIdle() bool {
+	w := x.w
+	if w.Count("publish.enq") != w.Count("publish.done") || w.Count("writer.enq") != w.Count("writer.done") {
+		return false
+	}
+	for _, n := range w.Nodes {
+		if n.Down {
+			continue
+		}
+		if a, c := n.Log.Counts(); a != c {
+			return false
+		}
+	}
+	return true
 }
 
 func (x *runner) step(o op) {
@@ -464,6 +508,9 @@ func (x *runner) step(o op) {
 		}
 	case "gate":
 		x.client(o.C).SetGate(o.On)
+	case "stall":
+		// the client stops (or resumes) reading: the broker's writes to it block until its write deadline passes
+		x.client(o.C).Conn.SetStalled(o.On)
 	case "burst":
 		// K publishes in a row without waiting for anything in between
 		cl := x.client(o.C)
@@ -541,7 +588,9 @@ func (x *runner) step(o op) {
 		x.r.Emit(rec.Ev{"op": "time", "ms": o.Ms})
 		w.Clock.Advance(time.Duration(o.Ms) * time.Millisecond)
 		time.Sleep(3 * time.Millisecond)
-		x.settle()
+		if !o.NoWait {
+			x.settle()
+		}
 	case "sweep":
 		n := w.Nodes[o.N]
 		n.Queue.Expire(time.Now().Add(time.Duration(o.Ms) * time.Millisecond))
@@ -551,6 +600,9 @@ func (x *runner) step(o op) {
 		switch o.Mode {
 		case "reverse":
 			w.Reverse = true
+			x.gossip = "auto"
+		case "dup":
+			w.Dup = true
 			x.gossip = "auto"
 		case "auto":
 			w.Reverse = false
@@ -563,6 +615,18 @@ func (x *runner) step(o op) {
 	case "deliver":
 		if g := w.Msg(o.Mid); g != nil {
 			w.Deliver(g, o.To)
+		}
+		x.settle()
+	case "deliverfrom":
+		// manual gossip: everything node From has queued so far and node To has not received yet, in order
+		for i := 1; ; i++ {
+			g := w.Msg(i)
+			if g == nil {
+				break
+			}
+			if g.From == o.From && !w.WasSent(g.ID, o.To) {
+				w.Deliver(g, o.To)
+			}
 		}
 		x.settle()
 	case "peerfail":
